@@ -335,7 +335,7 @@ def setup(ctx):
         for name in ('__add__', '__rmul__', '__iadd__', 'invariant', '_count_atoms'):
             ctx.require('contract.' + name, 1, 'this contract must have been evaluated')
         ctx.require('cases.private', 1, 'private-table share of the workload')
-        for name in ('mul.zero', 'mul.one', 'mul.numpy', 'iadd.aliased', 'leaf.dict', 'leaf.seq', 'leaf.str', 'leaf.atom'):
+        for name in ('mul.zero', 'mul.one', 'mul.numpy', 'iadd.aliased', 'leaf.dict', 'leaf.seq', 'leaf.str', 'leaf.atom', 'leaf.blank-string'):
             ctx.require('prog.' + name, 1, 'workload feature demanded by the property quantifier')
 
 
@@ -416,6 +416,8 @@ def _features(ctx, st):
     op = st['op']
     if op in ('atom', 'str', 'dict', 'seq', 'empty'):
         ctx.count('prog.leaf.' + op)
+        if op == 'empty' and st.get('how') in ('blank', 'parse'):
+            ctx.count('prog.leaf.blank-string')
     elif op == 'mul':
         kind, v = st['n']
         if v == 0:
@@ -497,6 +499,15 @@ def _run(ctx, prog, T, quiet=False):
                 if real.vars[i] is not real.vars[j]:
                     problems.append({'kind': 'alias', 'step': idx,
                                      'msg': 'statement %d: v%d and v%d should be one object' % (idx, i, j)})
+        # ... and only the alias map: a constructor or operator never hands back an object it handed out before
+        if kind in ('leaf', 'value'):
+            new = len(real.vars) - 1
+            for j in range(new):
+                if real.vars[j] is real.vars[new]:
+                    problems.append({'kind': 'unexpected-alias', 'step': idx,
+                                     'msg': 'statement %d (%s): the new formula v%d is the object already bound to v%d'
+                                            % (idx, st['op'], new, j)})
+                    break
         # every live variable against the shadow interpreter
         if not [q for q in problems if q['kind'] != 'shared-list']:
             for i, f in enumerate(real.vars):
